@@ -216,7 +216,7 @@ Theorem C14_source_drain_bounds : forall len cap base s e,
   call_fn src_fns en "string_drain_end" [vrange s e] = opt_or_panic (VecModel.range_end e len).
 Proof. exact src_string_drain_bounds_ok. Qed.
 
-Theorem C14_source_frames : forallb snd src_frames_string = true /\ List.length src_frames_string = 8%nat.
+Theorem C14_source_frames : forallb snd src_frames_string = true /\ List.length src_frames_string = 12%nat.
 Proof. split; [exact src_frames_string_ok | reflexivity]. Qed.
 
 (* those moves, done to a buffer with any spare capacity behind the text, give the model's result:
@@ -259,3 +259,12 @@ Print Assumptions C14_insert_assembled_from_source.
 Print Assumptions C14_truncate_assembled_from_source.
 Print Assumptions C14_remove_by_memmove.
 Print Assumptions C14_insert_by_memmove.
+
+(* String::retain as the loop of string.rs (StringRetain.v: buffer, idx, del_bytes, the move of a
+   kept character by ptr::copy, the guard's set_len) computes the model's s_retain for every valid
+   text and every script of non-panicking answers *)
+From BV Require Import StringRetain.
+Theorem C14_retain_loop_is_model : forall s keep, Valid s -> (List.length (chars s) <= List.length keep)%nat ->
+  retain_run s (answers keep) = (s_retain s keep, false).
+Proof. exact retain_run_is_s_retain. Qed.
+Print Assumptions C14_retain_loop_is_model.
